@@ -10,8 +10,8 @@ from pathlib import Path
 
 VERIF = Path(__file__).resolve().parent.parent
 REPO = Path(os.environ.get("VERIF_REPO", "/repo"))
-EVIDENCE_DIR = VERIF / "evidence"
-REPLAY_DIR = VERIF / "out" / "replay"
+EVIDENCE_DIR = Path(os.environ.get("VERIF_EVIDENCE_DIR", VERIF / "evidence"))
+REPLAY_DIR = Path(os.environ.get("VERIF_REPLAY_DIR", VERIF / "out" / "replay"))
 KNOWN_FINDINGS = VERIF / "known_findings.json"
 
 
